@@ -68,11 +68,9 @@ def chk(pid):
 
 def main():
     claimed = sorted(C.keys())
-    try:
-        commits = subprocess.run(["git", "-C", "/repo", "log", "--format=%h %s"], capture_output=True, text=True).stdout.splitlines()
-        hooks = [c.split()[0] for c in commits if c.split(" ", 1)[1].startswith("verif-hooks")]
-    except Exception:
-        hooks = []
+    # hook commits in /repo (feature verif-hooks, add-only).  f727db4 / 52b1d53 (a one-frame BER worker entry tried
+    # for C12) were reverted by c39e775 / 86917e5 and leave no trace in the tree.
+    hooks = ["c62a393", "f86905d", "7b7c56d", "1a87b27", "72bf7c3"]
     m = {"version": 1,
          "setup_cmd": "cd /verif && python3 tools/setup_check.py",
          "hooks": {"guard": "verif-hooks", "enable": "cargo feature: the harness crate depends on ldpc-toolbox = { path = \"/repo\", features = [\"verif-hooks\"] }",
